@@ -147,7 +147,8 @@ def obligation_name(unit, f):
         "assertion" if "assert" in f["message"] else \
         "overflow" if "overflow" in f["message"] or "underflow" in f["message"] else \
         "invariant" if "invariant" in f["message"] else "obligation"
-    return "verus:%s::%s::%s" % (unit, f["function"], kind)
+    slug = re.sub(r"[^A-Za-z0-9]+", "_", f.get("clause", ""))[:48].strip("_")
+    return "verus:%s::%s::%s%s" % (unit, f["function"], kind, ("[" + slug + "]") if slug else "")
 
 
 def canary_check(name, ok_result, timeout=600):
